@@ -895,7 +895,8 @@ std::string opRespSlow(const std::vector<std::string>& w)
 // A abort: partial request + close while the worker is busy with another connection, B request an 8 MB answer and do not read it
 // (the connection then has a blocked, non-empty write queue when it is closed or reset), Z the same but silent until the idle
 // time-out fired (408 queued behind the blocked answer), then everything is read up to the server's close, S / s request a streamed
-// answer from a slow handler and reset / close before the handler flushes it (the writes inside onInput fail)
+// answer from a slow handler and reset / close before the handler flushes it (the writes inside onInput fail), E stay silent and close
+// exactly when the idle time-out is noticed (timer tick and FIN in one epoll batch, the worker having been busy meanwhile)
 std::string opLife(const std::vector<std::string>& w)
 {
     if (w.size() != 4) return "bad-op";
@@ -904,6 +905,7 @@ std::string opLife(const std::vector<std::string>& w)
     stopEndpoint();
     { std::lock_guard<std::mutex> g(LIFE.m); LIFE.transports.clear(); }
     uint16_t port = ensureEndpoint(c);
+    auto epStart = std::chrono::steady_clock::now();      // the endpoint's 500 ms idle timer started (a few ms before) now
     RespScript sc; sc.mode = "send"; sc.code = 200; sc.chunks = { "ok" };
     { std::lock_guard<std::mutex> g(G.m); G.script = sc; }
     // warm-up: one served connection, then the baseline
@@ -971,6 +973,19 @@ std::string opLife(const std::vector<std::string>& w)
                 if (a == 'S') { linger lg { 1, 0 }; ::setsockopt(k.fd, SOL_SOCKET, SO_LINGER, &lg, sizeof lg); }
                 ::close(k.fd); k.open = false;
                 std::this_thread::sleep_for(std::chrono::milliseconds(160));
+            }
+            else if (a == 'E') {
+                // the idle time-out and the client's close reach the worker in ONE epoll batch: the connection has been silent; a helper
+                // keeps the (single) worker busy across the timer tick at which the connection has been idle for longer than the
+                // time-out, and the connection is closed inside that window: the worker comes back to [timer, FIN]
+                auto sinceStart = [&] { return static_cast<long>(std::chrono::duration_cast<std::chrono::milliseconds>(std::chrono::steady_clock::now() - epStart).count()); };
+                long tick = ((sinceStart() + c.hdrMs + 150) / 500 + 1) * 500;          // a tick at which the idle time certainly exceeds the time-out
+                while (sinceStart() < tick - 120) std::this_thread::sleep_for(std::chrono::milliseconds(5));
+                int helper = connectTo(port); sendAll(helper, "GET /slow260 HTTP/1.1\r\nHost: h\r\n\r\n");
+                while (sinceStart() < tick - 40) std::this_thread::sleep_for(std::chrono::milliseconds(2));
+                ::close(k.fd); k.open = false;
+                readResponse(helper, 800); ::close(helper);
+                std::this_thread::sleep_for(std::chrono::milliseconds(80));
             }
             else if (a == 'C') { ::close(k.fd); k.open = false; }
             else if (a == 'H') { ::shutdown(k.fd, SHUT_WR); bool cl; readResponse(k.fd, 300, &cl, false); ::close(k.fd); k.open = false; }
